@@ -169,6 +169,8 @@ func (o Op) String() string {
 		return fmt.Sprintf("punlock{l#%d %d}", o.L, o.Amt)
 	case "setrr":
 		return fmt.Sprintf("setrr{l#%d -> %s}", o.L, o.To)
+	case "extend":
+		return fmt.Sprintf("extend{l#%d to 24h}", o.L)
 	case "clgauge":
 		return fmt.Sprintf("clgauge{%s perp=%v nolock->clpool %s fut=%v n=%d}", o.A, o.Perp, GaugeCoins[o.C], o.Fut, o.N)
 	case "swap":
@@ -743,6 +745,19 @@ func (w *World) Apply(ctx sdk.Context, l *Ledger, op Op, fail func(a, s, d strin
 		} else {
 			k.Recv = op.To
 		}
+	case "extend":
+		// MsgExtendLockup to the longest lockable duration: the lock keeps its id, owner, amount and receiver and from now
+		// on qualifies for gauges of every duration up to the new one - once, not twice
+		if op.L >= len(l.Locks) {
+			return ctx, "rejected:no-such-lock"
+		}
+		k := &l.Locks[op.L]
+		r := core.Deliver(a, ctx, &lockuptypes.MsgExtendLockup{Owner: core.Acc(k.Owner).String(), ID: k.ID, Duration: time.Duration(H24)})
+		if !r.OK() {
+			return ctx, errClass(r.Err)
+		}
+		k.Dur = time.Duration(H24)
+		w.R.Vacuity["lock_extended"]++
 	case "rmr2":
 		w.RemoveR2Route(ctx, l)
 	case "swap":
@@ -953,6 +968,9 @@ func (w *World) Enabled(al *Alphabet) func(ctx sdk.Context, l *Ledger, depth int
 				if al.Partial > 0 && k.Amt > al.Partial {
 					ops = append(ops, Op{K: "punlock", L: i, Amt: al.Partial})
 				}
+			}
+			if !k.Unlocking() && k.Dur < time.Duration(H24) {
+				ops = append(ops, Op{K: "extend", L: i})
 			}
 			if k.Recv == "" {
 				ops = append(ops, Op{K: "setrr", L: i, To: "R"})
